@@ -311,6 +311,7 @@ impl<'a> Parser<'a> {
         self.skip_empty_lines(tokens);
 
         while !self.is_at_end(tokens) {
+            let statement_start = self.current;
             match self.statement(tokens) {
                 Ok(statement) => statements.push(statement),
                 Err(e) => {
@@ -342,8 +343,9 @@ impl<'a> Parser<'a> {
                 TokenKind::Equal => {
                     let last_token = self.last(tokens).unwrap();
 
+                    // The text of the current statement (up to the '=' sign)
                     let mut input = String::new();
-                    for token in tokens.iter().take(self.current) {
+                    for token in &tokens[statement_start..self.current] {
                         input.push_str(token.lexeme);
                     }
 
